@@ -80,6 +80,11 @@ def gen_cases(chk):
                            # then relative to a range the caller never sees, so only ABS is a meaningful oracle there
             h5.append("h5rt %x %s %s %x %s %s %x" % (ty, ",".join("%x" % v for v in dims), ",".join("%x" % v for v in chunk), mode,
                                                      dbits(absb), dbits(rel), rng.getrandbits(20)))
+    # datasets with a masked region: whole chunks of one value (their SZ streams are a few dozen bytes)
+    for dims, chunk in (((64, 64), (32, 32)), ((1000,), (250,)), ((16, 16, 16), (8, 16, 16)), ((40, 30), (20, 30))):
+        for ty in (0, 1, rng.choice((4, 6, 9))):
+            absb = 0.001 if ty < 2 else 1.0
+            h5.append("h5rt %x %s %s 0 %s %s %x" % (ty, ",".join("%x" % v for v in dims), ",".join("%x" % v for v in chunk), dbits(absb), dbits(1e-3), rng.getrandbits(16) | 0x10000))
     return cd, h5
 
 
